@@ -38,6 +38,12 @@ class LBCheck(BaseCheck):
     kind = self.KINDS[idx % len(self.KINDS)]
     classes.add(kind)
     pool = [Endpoint('m%02d' % i, 7000 + i) for i in range(16)]
+    if rng.random() < 0.2:
+      # a provider whose endpoints are plain (named) tuples
+      from collections import namedtuple
+      TupleEndpoint = namedtuple('Endpoint', 'host port')
+      pool = [TupleEndpoint('m%02d' % i, 7000 + i) for i in range(16)]
+      classes.add('tuple-endpoints')
     n0 = rng.choice([0, 1, 1, 2, 3, 3, 4, 5, 6, 8, 12])
     lb_params = {}
     if kind == 'aperture':
@@ -99,6 +105,12 @@ class LBCheck(BaseCheck):
 
     def check_dispatch(req, pre):
       ch = req['channel']
+      if req.get('raised'):
+        ob('dispatch:')
+        violate('dispatch:raised', 'dispatching request %d raised %s: %s (%d members in use)' % (
+          req['id'], type(req['raised'][0]).__name__, req['raised'][0], len(pre['chans'])),
+          {'exc': type(req['raised'][0]).__name__}, {'traceback': req['raised'][1]})
+        return
       P0 = pre['chans']
       created = req.get('created_in_dispatch', [])
       ob('dispatch:')
@@ -114,6 +126,10 @@ class LBCheck(BaseCheck):
           stats['no_member_dispatches'] += 1
           classes.add('no-members')
         return
+      if not (ss.pending or ss.loading or ss.closed) and opened[0] and ch.ep not in ss.truth:
+        ob('removal:')
+        violate('removal:request-to-departed', 'request %d went to %r, which is not in the server set (every '
+                'notification has been delivered)' % (req['id'], ch), {'left_during_loading': ch.removed_step is None})
       if ch not in P0 and ch not in created:
         violate('dispatch:outside-candidates', 'request %d went to %r which is not a member in use '
                 '(removed at step %r)' % (req['id'], ch, ch.removed_step), {}, {'P0': [repr(c) for c in P0]})
@@ -140,6 +156,12 @@ class LBCheck(BaseCheck):
 
     def check_loads():
       from scales.loadbalancer.heap import HeapBalancerSink as H
+      while w.complete_raised:
+        r_ = w.complete_raised.pop()
+        ob('load:')
+        violate('load:completion-raised', 'completing request %d raised %s: %s' % (
+          r_['id'], type(r_['complete_raised'][0]).__name__, r_['complete_raised'][0]),
+          {'exc': type(r_['complete_raised'][0]).__name__}, {'traceback': r_['complete_raised'][1]})
       total = 0
       for n in w.nodes:
         if n.endpoint is None:
